@@ -8,7 +8,7 @@ NOTES={
 }
 out='/verif/seeded'
 os.makedirs(out, exist_ok=True)
-rounds=['', '2', '3', '4', '5', '6', '7', '8', '9', '10']
+rounds=['', '2', '3', '4', '5', '6', '7', '8', '9', '10', '11']
 files=[]
 for r_ in rounds:
     files+=[(r_, f) for f in sorted(glob.glob(f'/tmp/seed/results{r_}/*.json'))]
